@@ -275,3 +275,61 @@ def state_heavy(rng):
         else:
             parts.append('cite[#c%d] term [?g%d]\n\n[#c%d]: Author. *Title*.\n\n[?g%d]: definition' % ((rng.randint(0, 9),) * 4))
     return ('\n\n'.join(parts) + '\n').encode()
+
+
+# lengths at which size-rounding code changes behaviour (powers of two and their neighbours, buffer sizes used in src/)
+BOUNDARY_LENGTHS = sorted(set(v for k in range(4, 17) for v in ((1 << k) - 2, (1 << k) - 1, 1 << k, (1 << k) + 1)) | set([999, 1000, 1001, 3 * 1024, 5 * 1024 - 1, 5 * 1024]))
+
+
+def fit_length(rng, b, n=None):
+    """b repeated / cut to exactly n bytes (n from BOUNDARY_LENGTHS by default), NUL-free."""
+    n = n if n is not None else rng.choice(BOUNDARY_LENGTHS)
+    b = b.replace(b'\0', b' ') or b'x '
+    out = (b * (n // len(b) + 1))[:n]
+    return out
+
+
+def line_sequence(rng, lo=1, hi=5):
+    """1..5 line-kind representatives (the table C02 enumerates), random line ending, final line ending present or not."""
+    from props import c02
+    seq = [rng.randrange(c02.K) for _ in range(rng.randint(lo, hi))]
+    body = c02.doc_for(seq)
+    eol = rng.choice([b'\n', b'\n', b'\r\n', b'\r'])
+    if eol != b'\n':
+        body = body.replace(b'\n', eol)
+    if rng.random() < 0.5:
+        body = body[:-len(eol)]
+    return body
+
+
+# small blocks that are parsed recursively or collected in tables; repeated N times they cross per-document counters and limits
+REPEAT_UNITS = [
+    ('bullet-2-lines', '* zq%dx item\n  more\n', ''),
+    ('bullet-loose', '* zq%dx item\n\n', ''),
+    ('enum-nested', '1. zq%dx item\n    * inner\n', ''),
+    ('quote', '> zq%dx quote\n\n', ''),
+    ('definition', 'term%d\n: zq%dx def\n\n', ''),
+    ('heading', '## zq%dx head\n\ntext\n\n', ''),
+    ('footnote', 'zq%dx call[^n%d]\n\n[^n%d]: note\n\n', ''),
+    ('inline-footnote', 'zq%dx call[^inline note %d]\n\n', ''),
+    ('citation', 'zq%dx [#c%d]\n\n[#c%d]: cite\n\n', ''),
+    ('abbreviation', 'zq%dx AB%d\n\n[>AB%d]: abbr\n\n', ''),
+    ('ref-link', 'zq%dx [l%d][]\n\n[l%d]: http://e.x/%d\n\n', ''),
+    ('table', '| zq%dx | b |\n|---|---|\n| c | d |\n\n', ''),
+    ('fenced', '```\nzq%dx code\n```\n\n', ''),
+    ('image', 'zq%dx ![a%d](i%d.png)\n\n', ''),
+    ('email', 'zq%dx <u%d@example.org>\n\n', ''),
+    ('html-block', '<div>zq%dx</div>\n\n', 'html-only'),
+    ('para', 'zq%dx plain *emph* `code`\n\n', ''),
+    ('math', 'zq%dx \\\\(a_%d\\\\) $b^%d$\n\n', ''),
+]
+REPEAT_COUNTS = [100, 500, 998, 999, 1000, 1001, 1100, 2000, 5000]
+
+
+def repeated_blocks(rng=None, unit=None, n=None):
+    """(name, source bytes, [sentinel words first/middle/last])"""
+    name, tpl, _ = unit if unit is not None else rng.choice(REPEAT_UNITS)
+    n = n if n is not None else rng.choice(REPEAT_COUNTS)
+    k = tpl.count('%d')
+    src = ''.join(tpl % ((i,) * k) for i in range(n))
+    return name, src.encode(), ['zq%dx' % i for i in (0, n // 2, n - 1)]
